@@ -761,6 +761,15 @@ def _sanitize(path, hdrs):
     return True, None
 
 
+def _redirect_target(path):
+    """extensions::uri_redirect_target with the default host options"""
+    if path.endswith(b"."):
+        return path + b"html"
+    if path.endswith(b"/"):
+        return path + b"index.html"
+    return path
+
+
 def _split(target):
     path, _, q = target.partition(b"?")
     return path, (q or None)
@@ -792,9 +801,12 @@ def _history_oracle(c, out, wire_):
         if kind in (5, 6):
             return None                     # park/release: not a sequential history
         if kind == 1:
+            # clear_page(host, uri): the URI as given and (kvarn 8ff8142) what the default redirect makes of it
+            # ("<p>." -> "<p>.html", "<p>/" -> "<p>/index.html"), whether or not the redirect extension is mounted
             path, q = _split(o[1][1][1])
-            store.pop(("pq", path, q), None)
-            store.pop(("p", path), None)
+            for p_ in (path, _redirect_target(path)):
+                store.pop(("pq", p_, q), None)
+                store.pop(("p", p_), None)
         elif kind == 2:
             store.clear()
         if kind != 0 or x[0] != "L" or len(x[1]) < 5:
@@ -829,14 +841,21 @@ def _history_oracle(c, out, wire_):
                 fresh = _ims_fresh(hdrs) if cf.ims else False
                 if fresh is None:
                     return None
-                # a date that is fresh for the entry: "not modified" is an answer (whether it is the right one is C04's
-                # subject; that the code gives it without looking at the variants is the model's) - computed by nobody,
-                # nothing stored.  (send() cuts a requested range out of the empty body of the 304: always the 416 page.)
-                if fresh and status == 304:
+                # a date that is fresh for the entry: "not modified" is the answer exactly when the request's OWN tuple was
+                # computed since the last clear (kvarn 832d735: only a stored variant can be vouched for) - computed by
+                # nobody, nothing stored, and whatever the range header says (kvarn 9ae9b1a: a 304 is not range-sliced).
+                # A 304 for a tuple that was never computed is a variant served for a different transformed value.
+                if status == 304 and not (fresh and t in store[key]):
+                    return where + ("304 Not Modified although %s" % (
+                        "the date is not fresh" if not fresh else
+                        "no response for the transformed tuple %r was computed since the last clear" % (t,)))
+                if fresh and t in store[key]:
+                    if status != 304:
+                        return where + "status %d, expected 304 (fresh date, the request's own variant is stored)" % status
                     if len(log) != 0:
                         return where + "the handler was invoked for a request that was answered 304"
-                    continue
-                if fresh and wire_ and rg is not None and status == 416 and len(log) == 0:
+                    if body != b"":
+                        return where + "a 304 with a body"
                     continue
                 if t in store[key]:
                     expect_calls = 0
